@@ -113,6 +113,11 @@ class ExecInstruction(MichelsonInstruction, prim='EXEC'):
         return cls(item)
 
 
+def _without_annots(ty: Type[MichelsonType]) -> Type[MichelsonType]:
+    args = [_without_annots(arg) if isinstance(arg, type) and issubclass(arg, MichelsonType) else arg for arg in ty.args]
+    return ty.create_type(args=args)
+
+
 class ApplyInstruction(MichelsonInstruction, prim='APPLY'):
     @classmethod
     def execute(cls, stack: MichelsonStack, stdout: List[str], context: AbstractContext):
@@ -124,7 +129,8 @@ class ApplyInstruction(MichelsonInstruction, prim='APPLY'):
 
         new_value = MichelineSequence.create_type(
             args=[
-                PushInstruction.create_type(args=[left_type, left.to_literal()]),
+                # NOTE: annotations of the parameter type are not part of the partially applied lambda
+                PushInstruction.create_type(args=[_without_annots(left_type), left.to_literal()]),
                 PairInstruction,
                 lambda_.value,
             ]
